@@ -243,6 +243,7 @@ def main(tier):
     chk.cov['stubs'] = ['operator new[]: fresh aligned block', 'GSL containers: shim', 'std::runtime_error construction: message only']
     chk.assumptions = ['operands are externally backed vectors over 80-double buffers so that an out-of-range read inside the buffer is observable by the monitor',
                        'the target of value-returning expressions is a self-owned vector of dimension d1']
+    pool_interp_vs_native(chk, sample_programs()[:4], nslots=5)
     with MPool(min(16, os.cpu_count() or 1)) as mp:
         results = mp.map(work, items, chunksize=1)
     for w in results:
